@@ -93,10 +93,32 @@ func runC15(c *Check) {
 			W[k] = fnShort(fn) + " @" + p.InstrPos(n.In)
 		}
 	}
-	// other functions of the executor that write
+	// other functions of the executor that write; a helper that only the three writers call
+	// (transitively) is part of them: its writes are seen in their graphs
+	owned := map[*ssa.Function]bool{exec: true, initc: true, final: true}
+	for changed := true; changed; {
+		changed = false
+		for _, fn := range p.Funcs {
+			pk := fnPkg(fn)
+			if pk == nil || pk.Pkg.Path() != kvPkg || owned[fn] || fn.Parent() != nil || (fn.Object() != nil && fn.Object().Exported()) {
+				continue
+			}
+			callers := callersOf(p, fn)
+			all := len(callers) > 0
+			for _, cl := range callers {
+				if !owned[topParent(cl)] {
+					all = false
+				}
+			}
+			if all {
+				owned[fn] = true
+				changed = true
+			}
+		}
+	}
 	for _, fn := range p.Funcs {
 		pk := fnPkg(fn)
-		if pk == nil || pk.Pkg.Path() != kvPkg || fn == exec || fn == initc || fn == final || fn.Parent() != nil {
+		if pk == nil || pk.Pkg.Path() != kvPkg || owned[fn] || fn.Parent() != nil {
 			continue
 		}
 		for _, b := range fn.Blocks {
